@@ -12,6 +12,8 @@ control in controls/pos):
   W4  advisory quantities  size_hint() / capacity() results reaching anything but a reservation (see advisory_scan)
   W5  shift counts         a shift whose count can reach the bit width (a width <= 64 used as a shift count; see shift_scan)
   W6  lossy adaptors       take_while / map_while on a borrowed iterator that is used again afterwards (see lossy_adaptor_scan)
+  W8  new field writers    a function the pinned tree does not have that writes a structure's fields, builds it from parts or calls a
+                           private `&mut self` helper: undecided, never a violation (see new_writer_scan)
 
 A cast of a value that is provably small (a width <= 64, a bit offset <= 63, a masked value, a constant) is not reported.
 """
@@ -188,6 +190,9 @@ def check(ctx, prop):
     ctx.ob("%s.W6.no-take-while-on-a-borrowed-iterator" % prop, "anchored-files", ", ".join(files)[:80], False if bad6 else (None if und6 else True), "adaptor-dataflow",
            "take_while / map_while on `&mut iterator` with the iterator used again afterwards (count must be 0): %s" % [h[:3] for h in (bad6 or und6)][:3],
            nontrivial=False, positive=bool(bad6))
+    for fn, what, where in new_writer_scan(F, files):
+        ctx.ob("%s.W8.new-function-writes-structure-fields" % prop, fn, where, None, "who-may-write",
+               "a function the pinned tree does not have %s: whether the invariants the rules rely on are maintained is not established" % "; ".join(what), nontrivial=False)
     w4 = advisory_scan(F, files)
     ctx.ob("%s.W4.advisory-quantities-only-reserve" % prop, "anchored-files", ", ".join(files)[:80], not w4, "taint-dataflow",
            "size_hint() / capacity() results reaching anything but a reservation -- a length, a stored field, a return value or a branch "
@@ -434,4 +439,88 @@ def lossy_adaptor_scan(F, files=None):
                     used = True
             out.append((b.name, "%s on %s, and `%s` is used again afterwards: the first item that fails the predicate is lost" % (_last(cn), selfty[:50], b.local_name(root) or "_%d" % root),
                         loc(t["sp"]), True) if used else (b.name, "%s on a borrowed iterator that is not used again" % _last(cn), loc(t["sp"]), False))
+    return out
+
+
+# ------------------------------------------------------------------------------------------------ W8 new writers of the structures' fields
+#
+# Every rule about a structure's invariants (unused bits zero, word count = bits_to_words(len), cached counts, widths, supports
+# that are functions of the data, the writers' counters, the map's pointer / length pair) was established by reading the functions
+# that write its fields on the pinned tree.  A function the pinned tree does not have -- a new `truncate`, `append`, `from_parts`,
+# `sync`, `reopen` -- that stores to those fields, mutates them through `&mut self.field`, builds the structure from parts, or
+# calls one of the type's private `&mut self` helpers (whose preconditions its callers were read for) is outside that reading.
+# Composed only of the type's existing public methods it inherits their guarantees; otherwise whether it maintains the
+# invariants is *not established*: the run is undecided and names the function and what it writes.  (Never a violation: a
+# correct addition looks the same.)
+
+def new_writer_scan(F, files=None):
+    import inline
+    from effects import rooted_mut_refs, store_path
+    base = inline.baseline()
+    if base is None:
+        return []
+    crate_adts = {a["def"] for a in F.data.get("adts", [])} if isinstance(F.data.get("adts"), list) else set(getattr(F, "adts", {}) or {})
+    out = []
+    for b in F.all_bodies():
+        name = b.name
+        if name in base or "{closure" in name or "{constant" in name or "::tests::" in name or name.startswith("internal::"):
+            continue
+        if files is not None and body_file(b) not in files:
+            continue
+        what = []
+        f = (F.fns.get(name) or [{}])[0]
+        self_ty = f.get("impl_self")
+        # (a) direct stores through a reference parameter, (b) mutating calls on a field of it
+        for i in range(1, b.nargs + 1):
+            if not b.local_ty(i).startswith("&mut"):
+                continue
+            holders = rooted_mut_refs(b, i, by_ref=True)
+            for bi, si, st in b.stmts():
+                if st["s"] == "assign" and st["lhs"]["p"] and st["lhs"]["p"][0] == "deref" and st["lhs"]["l"] in holders:
+                    sp_ = [(a, n) for a, n in store_path(st["lhs"]) if a and not a.startswith("std::")]
+                    if sp_:
+                        what.append("stores %s.%s" % (sp_[-1][0].split("::")[-1], sp_[-1][1]))
+            for bi, t in b.calls():
+                if not t["args"]:
+                    continue
+                q = operand_place(t["args"][0])
+                if q is None or q["p"] or q["l"] not in holders or not b.local_ty(q["l"]).startswith("&mut"):
+                    continue
+                cn = callee_name(t)
+                if q["l"] == i or not any(x[0] == "field" for x in subterms(b.term_of_operand(t["args"][0]))):
+                    # the parameter itself handed on: fine when that is one of the type's existing public methods (composition of
+                    # checked building blocks); anything else writes through the reference in a way nobody has read
+                    cf = (F.fns.get(cn) or [{}])[0]
+                    if cn in base and cf.get("vis", "pub") == "pub":
+                        continue
+                    if cn.startswith(("std::", "core::", "alloc::", "<")) and _last(cn) in ("index_mut", "deref_mut", "as_mut", "as_mut_slice", "swap", "replace", "take", "borrow_mut"):
+                        what.append("writes through its `&mut` parameter (%s)" % _last(cn))
+                    continue
+                tt = b.term_of_operand(t["args"][0])
+                fields = [x[2] for x in subterms(tt) if x[0] == "field" and isinstance(x[2], str) and not x[2].isdigit()]
+                if fields:
+                    what.append("mutates .%s through %s" % (fields[0], _last(cn)))
+        # (e) patches a field of a structure it holds by value (`let mut r = self.clone(); r.len = n;`)
+        for bi, si, st in b.stmts():
+            if st["s"] == "assign" and st["lhs"]["p"] and st["lhs"]["p"][0] != "deref" and st["lhs"]["l"] > b.nargs:
+                e0 = st["lhs"]["p"][0]
+                if isinstance(e0, dict) and e0.get("adt") and not str(e0["adt"]).startswith(("std::", "core::", "alloc::")) and e0.get("name") and \
+                        "Iter" not in str(e0["adt"]).split("::")[-1] and not str(e0["adt"]).endswith("Pos"):
+                    what.append("patches %s.%s of a value it holds" % (str(e0["adt"]).split("::")[-1], e0["name"]))
+        # (c) builds a structure of the crate from parts
+        for bi, si, st in b.stmts():
+            if st["s"] == "assign" and st["rv"]["r"] == "agg" and st["rv"].get("agg") == "adt":
+                d = st["rv"].get("def", "")
+                if d and not d.startswith(("std::", "core::", "alloc::")) and "::" in d and st["rv"].get("fields") and not d.endswith(("Iter", "Pos", "Parts")) \
+                        and "Iter" not in d.split("::")[-1]:
+                    what.append("builds %s{..}" % d.split("::")[-1])
+        # (d) calls a private `&mut self` helper of its own type
+        for bi, t in b.calls():
+            cn = callee_name(t)
+            cf = (F.fns.get(cn) or [{}])[0]
+            if cf and cf.get("vis", "pub") != "pub" and cf.get("impl_self") and cf.get("impl_self") == self_ty and cf.get("sig", "").find("&'a mut") >= 0 or \
+                    (cf and cf.get("vis", "pub") != "pub" and cf.get("impl_self") == self_ty and "&mut" in cf.get("sig", "")):
+                what.append("calls the private helper %s" % _last(cn))
+        if what:
+            out.append((name, sorted(set(what))[:5], b.raw["span"].split(":")[0] + ":" + b.raw["span"].split(":")[1]))
     return out
